@@ -72,6 +72,10 @@ func dpAlphabet() []dpBehav {
 		B("delta-crit-ext", nil, true, func(d *crlSpec) { d.CritExt = true }),
 		B("delta-nonumber", nil, true, func(d *crlSpec) { d.Number = -1 }),
 		B("base-nonumber+delta", func(b *crlSpec) { b.Number = -1 }, true, nil),
+		// the base CRL carries a freshest-CRL extension but the bundle has no delta (the extension names no URI, or the fetcher delivered base-only)
+		B("base-freshest-ext-nonuri-no-delta", func(b *crlSpec) {
+			b.FreshestRaw = []byte{0x30, 0x11, 0x30, 0x0f, 0xA0, 0x0d, 0xA0, 0x0b, 0x82, 0x09, 'c', 'r', 'l', '.', 'e', 'x', '.', 'c', 'o'}
+		}, false, nil),
 	}
 }
 
